@@ -204,6 +204,9 @@ class Lexer:
 
     def t_RPAR(self, token):
         r'\)'
+        if len(token.lexer.lexstatestack) == 0:
+            self.errors.append(("Unmatched ')'.", token.lexer.lineno))
+            return token
         token.lexer.pop_state()
         return token
 
